@@ -14,7 +14,7 @@ from unittest.mock import patch
 
 from pedal.core.feedback_category import FeedbackCategory
 from pedal.core.report import MAIN_REPORT
-from pedal.sandbox.mocked import PrintingStringIO
+from pedal.sandbox.mocked import PrintingStringIO, CapturingStringIO
 from pedal.utilities.exceptions import ExpandedTraceback, improve_builtin_exceptions
 from pedal.sandbox.data import SandboxVariable, SandboxContextKind, \
     SandboxContext, SandboxModules
@@ -577,7 +577,7 @@ class Sandbox:
         self._module_overrides['__builtins__'] = builtins
         # Handle allowing *actual* printing to the real stdout console
         if self._module_overrides['__builtins__'].get('print') is not True:
-            self._current_stdout.append(io.StringIO())
+            self._current_stdout.append(CapturingStringIO())
         else:
             self._current_stdout.append(PrintingStringIO())
         # And do the patches
